@@ -326,7 +326,35 @@ int world_new_sessions(world_t *w)
     {
         return rc;
     }
-    rc = matrixSslNewClientSession(&w->s[0].ssl, w->s[0].keys, w->sid, suites, (uint8_t) ns, cb, NULL, NULL, NULL, &co);
+    {
+        tlsExtension_t *ext = NULL;
+        if (c->sni_ext)
+        {
+            unsigned char *e = NULL;
+            int32 el = 0;
+            if (matrixSslNewHelloExtension(&ext, NULL) < 0)
+            {
+                return PS_MEM_FAIL;
+            }
+            if (matrixSslCreateSNIext(NULL, (unsigned char *) "localhost", 9, &e, &el) < 0)
+            {
+                matrixSslDeleteHelloExtension(ext);
+                return PS_MEM_FAIL;
+            }
+            rc = matrixSslLoadHelloExtension(ext, e, (uint32) el, EXT_SNI);
+            psFree(e, NULL);
+            if (rc < 0)
+            {
+                matrixSslDeleteHelloExtension(ext);
+                return rc;
+            }
+        }
+        rc = matrixSslNewClientSession(&w->s[0].ssl, w->s[0].keys, w->sid, suites, (uint8_t) ns, cb, c->expected_name, ext, NULL, &co);
+        if (ext)
+        {
+            matrixSslDeleteHelloExtension(ext);
+        }
+    }
     if (rc < 0)
     {
         return rc;
